@@ -12,13 +12,14 @@ PID = 'C08'
 LEVEL = 'exploration'
 RULE = ("seeded circuits (several nodes per type, hierarchy 0-2, edges) x 1-3 white-noise input arrays sent to input variables "
         "selected by single paths and wildcards; shapes (N,), (N,1), (N,n) one column per addressed node (vectorized builds), "
-        "1-D broadcast to several nodes, two inputs or inputs and edges converging on one variable; fixed step (euler, heun): "
+        "1-D broadcast to several nodes (families: up to 8, and 11-16 nodes of one type), two runs in one process with long pulse-like "
+        "arrays that agree at both ends, two inputs or inputs and edges converging on one variable; fixed step (euler, heun): "
         "returned trajectories of all state variables vs the reference iterates that use sample k during step k; adaptive: "
         "the compiled RHS is probed at times inside / between / at / beyond grid points and must use np.interp on "
         "linspace(0, T, N), and scipy runs are compared with a reference solution of the same interpolated problem; "
         "non-trivial = input reaches >= 1 state derivative (always) ; distinct = distinct (spec, input plan) hash")
 DECIDING = ['euler_rows_compared', 'adaptive_probe_points', 'adaptive_runs', 'inputs_1d', 'inputs_col1', 'inputs_multicol',
-            'broadcast_inputs', 'converging_inputs']
+            'broadcast_inputs', 'converging_inputs', 'sequence_runs', 'wide_targets']
 ASSUMPTIONS = ['input samples are white noise, so a shift by one sample or a column permutation is an O(1) error',
                'adaptive: samples are placed uniformly on [0, T] including both end points (as the property states)']
 CASE_TIMEOUT = 240
@@ -32,6 +33,13 @@ def plan(tier, seed):
         r = rnd.random()
         mode = 'euler' if r < 0.45 else 'heun' if r < 0.55 else 'probe' if r < 0.85 else 'scipy_run'
         cases.append({'family': 'main', 'cseed': rnd.randrange(1 << 30), 'mode': mode})
+    # wide groups: one array broadcast / distributed to 11-16 nodes of one type
+    for _ in range(16 if tier == 'quick' else 400):
+        cases.append({'family': 'wide', 'cseed': rnd.randrange(1 << 30), 'mode': rnd.choice(['euler', 'euler', 'probe'])})
+    # sequences: the same model is simulated twice in one process with two long (> 1000 samples) pulse-like input arrays that
+    # agree in their first and last samples and differ in between; every run must use its own array
+    for _ in range(14 if tier == 'quick' else 300):
+        cases.append({'family': 'sequence', 'cseed': rnd.randrange(1 << 30), 'mode': 'euler'})
     return cases
 
 
@@ -49,7 +57,11 @@ def make_case(case, ctx):
     rnd = random.Random(case['cseed'])
     for attempt in range(200):
         vec = rnd.random() < 0.5
-        spec, feats, risk = c04.make_spec({'cseed': rnd.randrange(1 << 30)}, ctx['excluded'])
+        fam = case.get('family')
+        if fam == 'wide':
+            vec = rnd.random() < 0.8
+        spec, feats, risk = c04.make_spec({'cseed': rnd.randrange(1 << 30), 'family': 'wide' if fam == 'wide' else 'main'},
+                                          ctx['excluded'])
         if vec:
             for o in spec['ops'].values():
                 for v, d in o['vars'].items():
@@ -59,7 +71,7 @@ def make_case(case, ctx):
         in_vars = sorted({(k[1], k[2]) for k in ref.param_keys if ref.kind[k] == 'in'})
         if not in_vars:
             continue
-        N = rnd.randint(12, 40)
+        N = rnd.randint(12, 40) if fam != 'sequence' else 10 * rnd.randint(101, 120)
         nrs = np.random.RandomState(case['cseed'] % (2 ** 31))
         plan_ = []
         for _ in range(rnd.randint(1, 3)):
@@ -67,7 +79,7 @@ def make_case(case, ctx):
             holders = [n for n in ref.node_order if (n, op, var) in ref.kind]
             n = rnd.choice(holders)
             parts = n.split('/')
-            mode = rnd.choice(['single', 'single', 'all_leaf', 'all_all'])
+            mode = rnd.choice(['single', 'single', 'all_leaf', 'all_all']) if fam != 'wide' else rnd.choice(['all_leaf', 'all_all'])
             if mode == 'all_leaf':
                 parts[-1] = 'all'
             elif mode == 'all_all':
@@ -85,6 +97,10 @@ def make_case(case, ctx):
                 arr = nrs.standard_normal((N, 1))
             else:
                 arr = nrs.standard_normal(N)
+            if fam == 'sequence':
+                # pulse protocol: zero baseline at both ends, O(1) samples in between
+                arr[:4] = 0.0
+                arr[-4:] = 0.0
             plan_.append({'path': path, 'targets': targets, 'shape': shape, 'arr': arr, 'op': op, 'var': var})
         if not plan_:
             continue
@@ -122,13 +138,41 @@ def run_case(case, ctx):
             mech.get('inputs_' + {'1d': '1d', 'col1': 'col1', 'multi': 'multicol'}[p['shape']], 0) + 1
         if p['shape'] != 'multi' and len(p['targets']) > 1:
             mech['broadcast_inputs'] = mech.get('broadcast_inputs', 0) + 1
+        if len(p['targets']) > 10:
+            mech['wide_targets'] = mech.get('wide_targets', 0) + 1
     tk = [(n, p['op'], p['var']) for p in plan_ for n in p['targets']]
     if len(set(tk)) < len(tk) or any(any(e['tgt'] == k for e in ref.edges) or ref._intra_sources(k) for k in tk):
         mech['converging_inputs'] = 1
     try:
         keys = list(ref.state_keys)[:10]
         outputs = {f'o{i}': '/'.join(k) for i, k in enumerate(keys)}
-        if mode in ('euler', 'heun'):
+        if case.get('family') == 'sequence':
+            keys = keys[:4]
+            outputs = {f'o{i}': '/'.join(k) for i, k in enumerate(keys)}
+            nrs2 = np.random.RandomState((case['cseed'] + 17) % (2 ** 31))
+            for run_i in range(2):
+                if run_i == 1:
+                    for p in plan_:
+                        a = p['arr']
+                        a[4:-4] = nrs2.standard_normal(a[4:-4].shape)       # same shape, same first/last samples
+                    inputs = {p['path']: p['arr'] for p in plan_}
+                try:
+                    df = observe.run_model(spec, T=T, dt=dt, solver='euler', outputs=outputs, vectorize=vec,
+                                           inputs={k_: v_.copy() for k_, v_ in inputs.items()}, dts=10 * dt)
+                except Exception as e:
+                    import traceback
+                    raise observe.Mismatch(f"loud: run {run_i + 1} raised {type(e).__name__}: {e} :: {traceback.format_exc()[-600:]}")
+                exp = observe.ref_trajectory(ref, keys, N, dt, input_fn=lambda k: input_values(plan_, k=k))[::10][:df.shape[0]]
+                msg = observe.compare_traj(df.values, exp, rtol=1e-7)
+                if msg == 'discard':
+                    res.update(status='discard', symptom='reference not finite', mech=mech)
+                    return res
+                if msg:
+                    raise observe.Mismatch(f"run {run_i + 1} of 2 in one process (inputs of {N} samples with equal first/last samples, "
+                                           f"{[(p['path'], p['shape']) for p in plan_]}, vectorize={vec}): {msg}")
+                mech['euler_rows_compared'] = mech.get('euler_rows_compared', 0) + df.shape[0]
+                mech['sequence_runs'] = mech.get('sequence_runs', 0) + 1
+        elif mode in ('euler', 'heun'):
             try:
                 df = observe.run_model(spec, T=T, dt=dt, solver=mode, outputs=outputs, vectorize=vec, inputs=inputs)
             except Exception as e:
